@@ -4,6 +4,7 @@ package main
 // '+'-separated lists, empty `types`, unreadable / unparsable configuration file.
 
 import (
+	"errors"
 	"strings"
 )
 
@@ -173,4 +174,37 @@ func Harness_K8_ReadConfig() {
 		}
 	}
 	vrtReach("K8/readconfig/end")
+}
+
+// Harness_K8_FlagMapYAML: the YAML decoder of a list option (types, exclude_fields, computed_fields,
+// required_fields, sensitive_fields). The decoder callback is the environment: it either fails (the
+// YAML value is not a list of strings) or delivers a list. A failure must surface as an error - a
+// configuration file that cannot be parsed makes the plugin fail (C16) - and a list becomes exactly
+// its set of entries.
+func Harness_K8_FlagMapYAML() {
+	fail := vrtBool()
+	a, b, probe := vrtString(), vrtString(), vrtString()
+	n := vrtLen(2)
+	list := []string{}
+	if n == 1 {
+		list = []string{a}
+	} else if n == 2 {
+		list = []string{a, b}
+	}
+	var lm flagMap
+	err := lm.UnmarshalYAML(func(v interface{}) error {
+		if fail {
+			return errors.New("yaml: cannot unmarshal !!str into []string")
+		}
+		*(v.(*[]string)) = list
+		return nil
+	})
+	if fail {
+		vrtAssert("C16/K8/wrongly-shaped-list-is-error", err != nil)
+	} else {
+		_, in := lm[probe]
+		want := (n >= 1 && probe == a) || (n >= 2 && probe == b)
+		vrtAssert("C16/K8/yaml-list-becomes-flag-map", err == nil && lm != nil && in == want)
+	}
+	vrtReach("K8/flagmapyaml/end")
 }
